@@ -128,6 +128,7 @@ def main(argv):
     checker_errors = []
     native_failures = []
     undecided_paths = []
+    undecided_obl = []
     backend = {}
     solver_s = 0.0
     paths = concolic = bounded_evals = 0
@@ -183,6 +184,8 @@ def main(argv):
                 failures.append((r, o))
             else:
                 undecided += 1
+                if len(undecided_obl) < 5:
+                    undecided_obl.append({'contract': r['contract'], 'clause': o['label'], 'config': r['cfg'], 'why': str(o.get('solver'))[:120], 'time_s': round(o.get('time', 0.0), 2)})
             if slowest is None or o.get('time', 0) > slowest['time_s']:
                 slowest = {'contract': r['contract'], 'clause': o['label'], 'time_s': round(o.get('time', 0.0), 3)}
 
@@ -284,7 +287,7 @@ def main(argv):
         'functions_under_contract': sorted(per_contract), 'per_contract': per_contract, 'configs': len(tasks), 'paths': paths,
         'backend': backend, 'solver_s': round(solver_s, 2), 'slowest_obligation': slowest,
         'undecided_obligations': undecided, 'undecided_paths': len(undecided_paths),
-        'undecided_samples': [{'contract': a, 'config': b, 'why': c_} for a, b, c_ in undecided_paths[:5]],
+        'undecided_samples': [{'contract': a, 'config': b, 'why': c_} for a, b, c_ in undecided_paths[:5]] + undecided_obl,
         'traces_validated_against_impl': concolic, 'bounded_evaluations': bounded_evals,
         'transform_counts': loader.TRANSFORM_COUNTS, 'source_sha256': loader.SOURCE_SHA, 'tree_sha': sha,
         'numpy_version': __import__('numpy').__version__, 'n_word_max': harness.packages()[1].pkg._n_word_max,
